@@ -674,6 +674,21 @@ static int sch_ecies(sess_t *s) {
 				int rc = cp_ecies_enc(s->e[1], s->buf[0], &s->blen[0], s->msg, s->msg_len, s->e[5]);
 				log_rc(s, "enc", rc);
 				s->flag[1] = rc == RLC_OK && err_get_code() == RLC_OK;
+				fault_t *f = find_fault(s, "forge");
+				if (f && !strcmp(f->kind, "v_forgeinf") && s->flag[1]) {
+					/* a ciphertext made without any key: ephemeral point = identity, so the receiver's shared
+					 * point is the identity whatever its private key, and its x-coordinate (zero) is public */
+					int size = RLC_CEIL(RLC_MAX(128, ec_param_level()), 8);
+					uint8_t zx[1] = { 0 }, key[2 * 8 * (RLC_FC_BYTES + 1)], iv[RLC_BC_LEN] = { 0 };
+					md_kdf(key, 2 * size, zx, 1);
+					s->blen[0] = BUFSZ;
+					if (bc_aes_cbc_enc(s->buf[0], &s->blen[0], s->msg, s->msg_len, key, size, iv) == RLC_OK) {
+						md_hmac(s->buf[0] + s->blen[0], s->buf[0], s->blen[0], key + size, size);
+						s->blen[0] += RLC_MD_LEN;
+						ec_set_infty(s->e[1]);
+						tr_printf("NOTE %d forged-with-identity-ephemeral\n", s->sid);
+					}
+				}
 			}
 			return 1;
 		case 3:
